@@ -319,7 +319,7 @@ Proof.
     - apply chain_finish_done; assumption. }
   destruct (q_join q) as [js|].
   - destruct (build (j_rhs js) B) as [m|bnr]; [|apply alive_init].
-    specialize (Hmain (Some m)). destruct (main_loop eval w q (Some m) _ 0 A) as [[ls pulls] [e|]]; [exact Hmain|].
+    specialize (Hmain (Some (widen (j_bhdr js) m))). destruct (main_loop eval w q (Some (widen (j_bhdr js) m)) _ 0 A) as [[ls pulls] [e|]]; [exact Hmain|].
     destruct (finish w q ls) as [st [fe|]]; exact Hmain.
   - specialize (Hmain None). destruct (main_loop eval w q None _ 0 A) as [[ls pulls] [e|]]; [exact Hmain|].
     destruct (finish w q ls) as [st [fe|]]; exact Hmain.
